@@ -44,6 +44,11 @@ inductive Op
   | appReq (k : Kind) (succ err : Bool)    -- application: interface._sendIq(entity, onSuccess?, onError?)
   | libReq (k : Kind)                      -- a library layer issues the request itself (keep-alive ping, key fetch …)
   | deliver (id : Nat) (isResult : Bool)   -- an `iq` of type result / error with this id arrives
+  | serverReq (id : Nat) (consumes : Bool)
+      -- a REQUEST of the server's own (an `iq` of type get / set: its ping) that carries this id.  It is not an answer, whatever requests are
+      -- outstanding under the same id (both sides number their stanzas).  `consumes` = how the client treats it: false: like any request — it
+      -- is answered (pong), the registries are left alone; true (the code before fix 0225534): an entry with that id is removed as if answered,
+      -- nothing is called and no pong is sent.  Which of the two the current source does is regenerated (Gen.serverRequestConsumes).
   | reReq (id : Nat) (k : Kind) (succ err : Bool)
       -- the application re-issues an earlier request under its OLD id (typically from inside the reply
       -- callback: a retry); allowed only for an id that was handed out before and is not outstanding
@@ -56,6 +61,7 @@ inductive Out
   | appEntity (id : Nat)                    -- a reply entity reached the application without a registered callback
   | ordinary (id : Nat)                     -- not a registered reply: handled like any other stanza
   | swallowed (id : Nat)                    -- consumed by a registry entry that has no callback for this reply type
+  | pong (id : Nat)                         -- the server's request was answered
 deriving Repr, DecidableEq
 
 /-- the interface layer receives a reply entity forwarded by a protocol layer -/
@@ -85,6 +91,10 @@ def step (s : St) : Op → St × List Out
       let s2 := if k.registers then { s1 with layerReg := s1.layerReg ++ [{ layer := k.owner, id := id, succ := k.succ, err := k.err }] } else s1
       (s2, [.sent id])
     else (s, [])
+  | .serverReq id consumes =>
+    if consumes && s.layerReg.any (fun e => e.id == id) then
+      ({ s with layerReg := s.layerReg.filter (fun x => x.id != id) }, [.swallowed id])
+    else (s, [.pong id])
   | .deliver id isResult =>
     match s.layerReg.find? (fun e => e.id == id) with
     | none => (s, [.ordinary id])
